@@ -4,7 +4,9 @@ import (
 	"encoding/json"
 	"fmt"
 	"os"
+	"strconv"
 	"testing"
+	"time"
 
 	"verif/kit"
 )
@@ -47,8 +49,14 @@ func dropRequest(sc *Scenario, i int) {
 func minimizeScenario(sc *Scenario, fails func(*Scenario) bool, budget int) *Scenario {
 	cur := cloneScenario(sc)
 	tries := 0
+	wall := 10 * time.Minute
+	if v, err := strconv.Atoi(os.Getenv("VERIF_MINIMIZE_SECONDS")); err == nil && v > 0 {
+		wall = time.Duration(v) * time.Second
+	}
+	deadline := time.Now().Add(wall)
 	try := func(c *Scenario) bool {
-		if tries >= budget {
+		if tries >= budget || time.Now().After(deadline) {
+			tries = budget
 			return false
 		}
 		tries++
